@@ -398,7 +398,22 @@ def css(ctx):
     mentions_url = any(isinstance(n, ast.Constant) and isinstance(n.value, str) and "url" in n.value for n in ast.walk(f.node)) or \
         any(isinstance(n, ast.Name) and "url" in n.id.lower() for n in ast.walk(f.node))
     r.idiom("R9.5", ok, "url-stripped-first", f.where, "the url() stripper is no longer the first step of sanitize_css",
-            wrong=[(not mentions_url, "sanitize_css no longer strips url(...) at all")])
+            wrong=[(not mentions_url, "sanitize_css no longer strips url(...) at all"),
+                   (isinstance(first, ast.Assign) and ".sub(''," in norm(first.value),
+                    "sanitize_css removes url(...) by substituting the empty string: the text around a removed match is joined, and "
+                    "since the substitution is a single pass `ururl(1)l(2)` becomes `url(2)` and survives")])
+    # CSS function names are ASCII case-insensitive: the stripper has to remove URL( / Url( as well
+    comp = [c for c in ast.walk(first) if isinstance(c, ast.Call) and norm(c.func) in ("re.compile", "re.sub")] if isinstance(first, ast.Assign) else []
+    pat = ctx.ce.try_eval(comp[0].args[0], f.module) if comp and comp[0].args else None
+    if isinstance(pat, str) and "url" in pat.lower():
+        flags = " ".join(norm(a) for a in comp[0].args[1:] if norm(comp[0].func) == "re.compile") + " ".join(norm(k.value) for k in comp[0].keywords)
+        insensitive = "re.I" in flags or "IGNORECASE" in flags or pat.startswith("(?i)") or "[uU]" in pat or \
+            ".lower()" in norm(first.value)
+        r.check("R9.5", insensitive, "url-strip-case-insensitive", "%s:%d" % (REL, first.lineno),
+                "the url() stripper %r is case-sensitive: `color: URL(1)` is not stripped, passes the gauntlet (letters and a "
+                "parenthesised number) and is kept in the sanitized style" % pat, detail={"pattern": pat, "flags": flags})
+    else:
+        r.idiom("R9.5", False, "url-strip-case-insensitive", f.where, "the url() stripper's pattern was not found")
     rets = [n for n in ast.walk(f.node) if isinstance(n, ast.Return)]
     r.idiom("R9.5", all(norm(x.value) in ("''", "' '.join(clean)") for x in rets), "css-returns", f.where,
             "sanitize_css returns something other than '' or the kept declarations")
@@ -435,6 +450,8 @@ def thorough(ctx):
 def mutants():
     from ..selftest import TextMutant as T
     return [
+        T("url-strip-case-sensitive", REL, "\\s*\\)\\s*', re.I).sub(' ', style)", "\\s*\\)\\s*').sub(' ', style)", "R9.5"),
+        T("url-strip-empty-replacement", REL, "\\s*\\)\\s*', re.I).sub(' ', style)", "\\s*\\)\\s*', re.I).sub('', style)", "R9.5"),
         T("svg-url-strip-once", REL, "                                         unescape(attrs[attr]))\n            if (token[\"name\"] in self.svg_allow_local_href",
           "                                         unescape(attrs[attr]), 1)\n            if (token[\"name\"] in self.svg_allow_local_href", "R9.6"),
         T("no-c1-strip", REL, "                val_unescaped = re.sub(\"[`\\x00-\\x20\\x7f-\\xa0\\\\s]+\", '',", "                val_unescaped = re.sub(\"[`\\x00-\\x20\\xa0\\\\s]+\", '',", "R9.3"),
@@ -454,7 +471,7 @@ def mutants():
         T("default-list-used", REL, "                    if uri.scheme not in self.allowed_protocols:", "                    if uri.scheme not in allowed_protocols:", "R9"),
         T("css-keep-unknown", REL, "            elif prop.lower() in self.allowed_svg_properties:\n                clean.append(prop + ': ' + value + ';')",
           "            elif prop.lower() in self.allowed_svg_properties:\n                clean.append(prop + ': ' + value + ';')\n            else:\n                clean.append(prop + ': ' + value + ';')", "R9.5"),
-        T("css-url-after", REL, "        style = re.compile(r'url\\s*\\(\\s*[^\\s)]+?\\s*\\)\\s*').sub(' ', style)\n\n        # gauntlet\n", "        # gauntlet\n", "R9.5"),
+        T("css-url-after", REL, "        style = re.compile(r'url\\s*\\(\\s*[^\\s)]+?\\s*\\)\\s*', re.I).sub(' ', style)\n\n        # gauntlet\n", "        # gauntlet\n", "R9.5"),
     ]
 
 
